@@ -82,8 +82,8 @@ def _one(ctx: Any, case: Dict[str, Any], name: str) -> None:
             if crash:
                 ctx.violation("openpositions.generator-crashed", {"error": crash}, case)
                 return
-            ctx.count("unobservable")
-            ctx.tag("tag_unobservable", f"cli exit {res.exit}: {res.stderr.strip().splitlines()[-1][:140] if res.stderr.strip() else ''}")
+            # the input and the options are valid by construction and the report this property is about was not produced
+            ctx.violation("openpositions.run-failed-on-valid-input", {"exit": res.exit, "error": res.stderr.strip().splitlines()[-1][:200] if res.stderr.strip() else ""}, case)
             return
         op_path, full_path = res.report("open_positions"), res.report("rp2_full_report")
         if not op_path or not full_path:
@@ -221,8 +221,8 @@ def _one_cross(ctx: Any, case: Dict[str, Any], name: str) -> None:
             if crash:
                 ctx.violation("openpositions.generator-crashed", {"error": crash}, case)
                 return
-            ctx.count("unobservable")
-            ctx.tag("tag_unobservable", f"cli exit {res.exit}: {res.stderr.strip().splitlines()[-1][:140] if res.stderr.strip() else ''}")
+            # the input and the options are valid by construction and the report this property is about was not produced
+            ctx.violation("openpositions.run-failed-on-valid-input", {"exit": res.exit, "error": res.stderr.strip().splitlines()[-1][:200] if res.stderr.strip() else ""}, case)
             return
         op_path, full_path = res.report("open_positions"), res.report("rp2_full_report")
         if not op_path or not full_path:
